@@ -3,6 +3,7 @@
 //! /repo's working tree, and writes inputs + observations as Coq terms for the model side.
 mod out;
 mod rng;
+mod c01;
 mod c02;
 mod c05;
 mod c07;
@@ -40,6 +41,8 @@ fn main() {
     let cmd = argv[1].clone();
     if cmd == "c10-witness" { out::start_watchdog(); c10::witness(); return; }
     if cmd == "dump-stdlib" { print!("{}", modgen::dump_stdlib()); return; }
+    if cmd == "c01-obs" { c01::obs_child(&argv[2], argv.get(3).map(|s| s.as_str()).unwrap_or("")); return; }
+    if cmd == "c01-case" { c01::replay(&argv[2]); return; }
     if cmd == "gcprobe" { gcprobe::run(&argv[2]); return; }
     if cmd == "probe" { if argv[2] == "handles" { probes::handles(); } else if argv[2] == "c02-guard-children" { probes::guard_children(); } else if argv[2] == "closure-labels" { probes::closure_labels(); } else { probes::run(&argv[2]); } return; }
     let mut a = Args { prop: argv[2].clone(), seed: 1, n: 300, tier: "quick".into(), out: PathBuf::from("work") };
@@ -56,6 +59,7 @@ fn main() {
     out::start_watchdog();
     if std::env::var("VM_PANICMSG").is_err() { std::panic::set_hook(Box::new(|_| {})); }
     match (cmd.as_str(), a.prop.as_str()) {
+        ("gen", "C01") => c01::gen(&a),
         ("gen", "C02") => c02::gen(&a),
         ("gen", "C05") => c05::gen(&a),
         ("gen", "C07") => c07::gen(&a),
